@@ -2,11 +2,13 @@ package props
 
 import (
 	"context"
+	"encoding/hex"
 	"encoding/json"
 	"errors"
 	"fmt"
 	"strings"
 	"time"
+	"unicode/utf8"
 
 	"github.com/varlink/go/varlink"
 
@@ -59,6 +61,40 @@ type FrameSpec struct {
 	Text string `json:"text"`
 	// NoNul: the frame is sent without its terminating NUL (only as the last one).
 	NoNul bool `json:"no_nul,omitempty"`
+}
+
+type frameJSON struct {
+	Cid   int    `json:"cid"`
+	Text  string `json:"text,omitempty"`
+	Hex   string `json:"hex,omitempty"`
+	NoNul bool   `json:"no_nul,omitempty"`
+}
+
+// MarshalJSON keeps frames that are not valid UTF-8 intact (hex).
+func (f FrameSpec) MarshalJSON() ([]byte, error) {
+	j := frameJSON{Cid: f.Cid, NoNul: f.NoNul}
+	if utf8.ValidString(f.Text) {
+		j.Text = f.Text
+	} else {
+		j.Hex = hex.EncodeToString([]byte(f.Text))
+	}
+	return json.Marshal(j)
+}
+
+func (f *FrameSpec) UnmarshalJSON(b []byte) error {
+	var j frameJSON
+	if err := json.Unmarshal(b, &j); err != nil {
+		return err
+	}
+	f.Cid, f.NoNul, f.Text = j.Cid, j.NoNul, j.Text
+	if j.Hex != "" {
+		raw, err := hex.DecodeString(j.Hex)
+		if err != nil {
+			return err
+		}
+		f.Text = string(raw)
+	}
+	return nil
 }
 
 // ClientSpec is one raw client connection.
@@ -279,32 +315,37 @@ func rawClientTask(idx int, spec ServiceSpec, c ClientSpec) func() {
 				}
 			})
 		}
-		stream := c.stream()
-		off := 0
-		for i := 0; off < len(stream); i++ {
-			n := len(stream) - off
-			if i < len(c.Cuts) && c.Cuts[i] > 0 && c.Cuts[i] < n {
-				n = c.Cuts[i]
+		// the writer is a child task: a stalled exchange (both sides blocked in
+		// write) must not keep this client from going away at quiescence
+		sim.Go(fmt.Sprintf("writer%d", idx), func() {
+			stream := c.stream()
+			off := 0
+			for i := 0; off < len(stream); i++ {
+				n := len(stream) - off
+				if i < len(c.Cuts) && c.Cuts[i] > 0 && c.Cuts[i] < n {
+					n = c.Cuts[i]
+				}
+				if _, err := ep.Write(stream[off : off+n]); err != nil {
+					sim.Rec("client.writefail", fmt.Sprintf("%d", idx))
+					return
+				}
+				off += n
+				if i < len(c.PauseUs) && c.PauseUs[i] > 0 {
+					sim.Sleep(time.Duration(c.PauseUs[i]) * time.Microsecond)
+				}
 			}
-			if _, err := ep.Write(stream[off : off+n]); err != nil {
-				sim.Rec("client.writefail", fmt.Sprintf("%d", idx))
-				break
+			switch c.End {
+			case "close-now":
+				ep.Close()
+			case "abort":
+				ep.Abort()
 			}
-			off += n
-			if i < len(c.PauseUs) && c.PauseUs[i] > 0 {
-				sim.Sleep(time.Duration(c.PauseUs[i]) * time.Microsecond)
-			}
-		}
-		switch c.End {
-		case "close-now":
-			ep.Close()
-		case "abort":
+		})
+		// every client is gone after the first quiescence at the latest
+		sim.Await(sim.Cond{Kind: sim.CondQuiescent})
+		if c.End == "abort-quiet" || c.End == "abort" {
 			ep.Abort()
-		case "abort-quiet":
-			sim.Await(sim.Cond{Kind: sim.CondQuiescent})
-			ep.Abort()
-		default:
-			sim.Await(sim.Cond{Kind: sim.CondQuiescent})
+		} else {
 			ep.Close()
 		}
 		sim.Rec("client.end", fmt.Sprintf("%d", idx))
